@@ -14,7 +14,6 @@
 
 from libc.math cimport sqrt, floor
 
-from datetime import datetime
 import random
 
 import numpy as np
@@ -567,11 +566,11 @@ def _twin_surrogates_r(int n_surrogates, int N, int dim, twins,
     cdef:
         int i, j, k, new_k, n_twins, rand
         object twins_k
-        ndarray[DFIELD_t, ndim=2] surrogates = np.empty(
+        ndarray[DFIELD_t, ndim=3] surrogates = np.empty(
             (n_surrogates, N, dim), dtype=DFIELD)
 
     # Initialize random number generator
-    random.seed(datetime.now())
+    random.seed()
 
     for i in range(n_surrogates):
         # Randomly choose a starting point in the original trajectory
